@@ -365,7 +365,7 @@ fn race<U: Seed>(rep: &mut Report, rng: &mut Rng, rounds: usize, kmax: usize) ->
                     s.spawn(move || {
                         ready.fetch_add(1, SeqCst);
                         while !go.load(SeqCst) {
-                            std::hint::spin_loop();
+                            crate::util::pause();
                             #[cfg(miri)]
                             std::thread::yield_now();
                         }
@@ -697,7 +697,7 @@ pub fn run(args: &Args) -> Report {
     sequences::<SeedBomb>(&mut rep, maxlen.min(3));
     rep.count("sequences_checked", rep.evaluations);
 
-    let rounds = if miri { args.n(6, 20) } else { args.n(1_500, 60_000) };
+    let rounds = if miri { args.n(6, 20) } else { args.n(1_500, 12_000) };
     let kmax = if miri { 3 } else { 8 };
     let mut contended = 0;
     contended += race::<SeedTok>(&mut rep, &mut rng, rounds, kmax);
